@@ -216,23 +216,16 @@ example : merge exDS {} (merge exDS {} exDT exDSrc) exDSrc = merge exDS {} exDT 
 
 /-! ## the result contains the source -/
 
--- AUDIT: conclusion slightly weaker than the docstring (no vacuity: hypotheses witnessed below, incl. `IsChain` on three-node chains
--- through nested list entries).  The docstring's last claim — "A default leaf of the source without `LYD_MERGE_DEFAULTS` is also
--- found, with the target's value if the target had one" — is only half in the statement: for such an `x` the guard
--- `(isKind leaf && (o.defaults || !x.flags.dflt)) = true` is false, so the conclusion gives a node `n` of `x`'s schema node and
--- nothing about its value.  (The same holds for `merge_contains_source_pos`.)  `merge_keeps_untouched_target` does not cover it
--- either, since the source does contain the path.  Minimal repair of the statement: one more conjunct
---   `(x.isTerm = true → S.isKind x.sid .leaf = true → x.flags.dflt = true → o.defaults = false →
---       ∀ y, descend S chain t = some y → n = y)`
--- or drop the half sentence from the docstring.  The missing half is proved separately, for chains of TARGET nodes, as
--- `merge_keeps_matched_term` below (with `keep_chain_alone`, appended to LemmasKeep2: `keep_chain` with the last step "matched term node,
--- not copied" besides "no match"); this theorem's statement is left as it was.  The behaviour is also witnessed on the example trees
--- directly below the existing example (`exT` as the source with its default `a`, `exSrc` as the target with `a = e`).
+-- AUDIT (resolved): docstrings of `merge_contains_source*` say what the conclusion gives for a default leaf (a node, no value); the value half is `merge_keeps_matched_term`.
 /-- **merge_contains_source**: take any node `x` of the source, addressed by the chain of source nodes leading to it
 (`IsChain`: a top-level node, one of its non-key children, …).  Following the *same path of (schema node, keys / value)*
 in the result (`descend`) finds a node `n` of `x`'s schema node and identity; if `x` is a leaf that is explicit — or any
 leaf under `LYD_MERGE_DEFAULTS` — `n` has `x`'s value and default flag (and, with `LYD_MERGE_WITH_FLAGS`, all its flags).
-A default leaf of the source without `LYD_MERGE_DEFAULTS` is also found, with the target's value if the target had one.
+For a default leaf `x` of the source without `LYD_MERGE_DEFAULTS` (the guard `isKind leaf && (defaults || !x.dflt)` is false) this
+theorem gives a node `n` of `x`'s schema node and says NOTHING about its value or flags (nor for inner nodes and leaf-list
+instances beyond `matchP`; for the latter see `merge_contains_leaflist_value`).  That such a leaf carries the target's value if the
+target had one is a separate theorem, stated for chains of TARGET nodes: `merge_keeps_matched_term` below (the target node is found
+unchanged when the source holds a default leaf there and `LYD_MERGE_DEFAULTS` is not given).
 Fragment: source without key-less list / state leaf-list instances (those have no identity; `merge_contains_source_pos`
 addresses them by position). -/
 theorem merge_contains_source (S : Schema) (o : MergeOpts) (t s : List DNode) (ht : wfForest S t = true)
@@ -307,7 +300,7 @@ example : ∃ n, descend exS [auCS, .term 2 {} [] [51]] (merge exS {} exT exSrc)
     [auCS, .term 2 {} [] [51]] _ ⟨List.Mem.head _, by show _ ∈ [_, _, _, _, _, _]; simp⟩ rfl
   exact ⟨n, h1, merge_contains_leaflist_value exS _ n (by decide) (by decide) rfl h3⟩
 
-/-- non-vacuity (audit), and evidence for the AUDIT note above: roles exchanged (`exT` is the source, its `c/a` a default node, `exSrc` the
+/-- non-vacuity (audit), and evidence for the last paragraph of the docstring of `merge_contains_source`: roles exchanged (`exT` is the source, its `c/a` a default node, `exSrc` the
 target with `c/a = e`): the theorem finds a node for `c/a`; by evaluation it carries the target's value `e` — and the source's default `d`
 under `LYD_MERGE_DEFAULTS`, which is the case the theorem's conclusion does speak about -/
 example : (∃ n, descend exS [auCT, .term 1 { dflt := true } [] [100]] (merge exS {} exSrc exT) = some n ∧ n.sid = 1) ∧
@@ -328,7 +321,9 @@ same positions in the result (`descendK`: at each level the `k`-th of the nodes 
 finds a node `n` of `x`'s schema node and identity — for a duplicate-instance node: with `x`'s content
 (`lyd_compare_single(…, LYD_COMPARE_FULL_RECURSION)`), i.e. the `k`-th source instance of a class of equal instances is
 the `k`-th instance of that class in the result; for an explicit leaf (or any leaf under `LYD_MERGE_DEFAULTS`) with
-`x`'s value and default flag.  For chains without duplicate-instance nodes all positions are 0 and this is
+`x`'s value and default flag.  As in `merge_contains_source`, for a default leaf of the source without `LYD_MERGE_DEFAULTS`
+the conclusion gives the node only, not its value (for chains of target nodes without duplicate instances that is
+`merge_keeps_matched_term`).  For chains without duplicate-instance nodes all positions are 0 and this is
 `merge_contains_source`. -/
 theorem merge_contains_source_pos (S : Schema) (o : MergeOpts) (t s : List DNode) (ht : wfForest S t = true)
     (hs : wfForest S s = true) (chain : List (DNode × Nat)) (x : DNode) (k : Nat)
@@ -399,7 +394,7 @@ example : descend exS [auCT, .term 2 {} [] [50]] (merge exS {} exT exSrc) = some
      [auT1, auIn 112 [.term 5 {} [] [49]], .term 5 {} [] [49]] _
      ⟨List.Mem.head _, by show _ ∈ [_, _, _]; simp [auIn], by show _ ∈ [_]; simp⟩ (by decide) rfl (by decide)⟩
 
-/-- **merge_keeps_matched_term** (audit addition; the repair proposed in the AUDIT note at `merge_contains_source`): a target node `y`,
+/-- **merge_keeps_matched_term** (audit addition; the half that the conclusion of `merge_contains_source` leaves out): a target node `y`,
 addressed by the chain of target nodes leading to it, is found unchanged in the result not only when the source does not contain its
 path (`merge_keeps_untouched_target`, the case `descend … s = none`) but also when what the source holds there is a term node that
 `lyd_merge_sibling_r` matches without copying (`Merge.LeavesAlone`): an instance of a leaf-list with `y`'s value, or a **default leaf
